@@ -1707,7 +1707,7 @@ class Stage:
 
                 pv = stage._method.get_p_sys(stage,k,include_signals=False)
                 if stage._method.signals:
-                    pv = ca.vertcat(ca.repmat(pv,1,refine),signals_sampled[count_blocks])
+                    pv = stage._method.pack_p_sys(stage, ca.repmat(pv,1,refine), signals_sampled[count_blocks])
                 sub_expr.append(stage._method.eval_at_integrator(stage, expr_f(local_t.T, nan if coeff is None else mtimes(coeff,tpower), nan if coeff_q is None else mtimes(coeff_q,tpower), z, stage._method.U[k], pv, stage._method.t0, stage._method.T), k, l))
                 t0+=dt
                 count_blocks+=1
